@@ -1182,7 +1182,7 @@ fn explore_container(ctx: &Ctx, what: &str, p: &Placed, thorough: bool, full_dep
 
 pub fn run(tier: Tier, replay: Option<String>) -> i32 {
     let ctx = crate::new_ctx("C04", tier, "model_checking", &replay);
-    ctx.set_rule("E1 on one container: depth 1 = the complete alphabet (every accessor route x every offset 0..=N+1 x every length/count 0..=N+2 plus values around isize::MAX/usize::MAX x 12 element types of 1..16 bytes x local buffers at every misalignment 0..7) from a labelled state; depth 2 = product (write route) x (read route) at aligned and unaligned positions with the state carried over; depth 3 = write, overlapping write, read, and write, the same write again with data that differs in its last one to three bytes only (or not at all), read. Containers: VolatileSlice of N in 0..=24 bytes at every address mod 8 (one copy ending at a PROT_NONE guard page), MmapRegion of 24 and 4099 bytes. After every transition the result, the complete container, a 64-byte frame around it, the caller's buffer and canaries around that buffer are compared with a Vec<u8> model. An MmapRegion of 140001 bytes: every buffer, stream and copy route with transfers of 2^16-1 .. 140001 bytes in one call (around 2^16 and 2^17, at offsets 0, 1, 3 and ending at the end), contents without a short period.");
+    ctx.set_rule("E1 on one container: depth 1 = the complete alphabet (every accessor route x every offset 0..=N+1 x every length/count 0..=N+2 plus values around isize::MAX/usize::MAX x 12 element types of 1..16 bytes x local buffers at every misalignment 0..7) from a labelled state; depth 2 = product (write route) x (read route) at aligned and unaligned positions with the state carried over; depth 3 = write, overlapping write, read, and write, the same write again with data that differs in its last one to three bytes only (or not at all), read. Containers: VolatileSlice of N in 0..=24 bytes at every address mod 8 (one copy ending at a PROT_NONE guard page), MmapRegion of 24 and 4099 bytes. After every transition the result, the complete container, a 64-byte frame around it, the caller's buffer and canaries around that buffer are compared with a Vec<u8> model. An MmapRegion of 140001 bytes: every buffer, stream and copy route with transfers of 2^16-1 .. 140001 bytes in one call (around 2^16 and 2^17, at offsets 0, 1, 3 and ending at the end), contents without a short period. An MmapRegion of 16 MiB + 8197 bytes: eight buffer, slice, stream and copy routes with transfers of 2^24, 2^24+1 and the whole container in one call.");
     ctx.assume("stream forms that start exactly at the end of the container may return Ok(0) or an error; a failing exact stream form may or may not have moved a prefix");
     let thorough = tier.thorough();
     if let Some(r) = ctx.replay_of.clone() {
@@ -1258,11 +1258,118 @@ pub fn run(tier: Tier, replay: Option<String>) -> i32 {
         }
         #[cfg(not(feature = "xen"))]
         s.spawn(move || mmap_regions(ctx, thorough));
+        #[cfg(not(feature = "xen"))]
+        s.spawn(move || huge_transfers(ctx));
     });
     ctx.sample(json!({"container": "VolatileSlice N=9 at address 3 mod 8", "op": "Write { off: 7, len: 5, mis: 6 }", "expected": "Ok(2); bytes 7..9 replaced; frame and local canaries intact"}));
     ctx.sample(json!({"container": "VolatileSlice N=16", "history": ["ArrCopyFrom { ty: U32, off: 3, n: 2, m: 2 }", "RefLoad { ty: Be32, off: 3 }"], "expected": "the value stored through the array reference is the value loaded through the typed reference"}));
     ctx.set_exhaustive(true);
     ctx.finish()
+}
+
+/// Transfers of more than 2^24 bytes in one call on a container of 16 MiB + 8197 bytes: the
+/// buffer, slice and stream routes move every byte they name (no route caps a transfer).
+#[cfg(not(feature = "xen"))]
+fn huge_transfers(ctx: &Ctx) {
+    use vm_memory::MmapRegion;
+    const N: usize = (16 << 20) + 8197;
+    let region = match MmapRegion::<()>::new(N) {
+        Ok(r) => r,
+        Err(e) => {
+            ctx.machinery(&format!("cannot map {} bytes: {:?}", N, e));
+            return;
+        }
+    };
+    let pat = |salt: u32, n: usize| -> Vec<u8> { (0..n).map(|i| (((i as u32).wrapping_add(salt)).wrapping_mul(2654435761) >> 23) as u8).collect() };
+    let base = pat(1, N);
+    let set = || unsafe { std::ptr::copy_nonoverlapping(base.as_ptr(), region.as_ptr(), N) };
+    let get = || unsafe { std::slice::from_raw_parts(region.as_ptr(), N) }.to_vec();
+    let vs = region.as_volatile_slice();
+    let mut t = 0u64;
+    for (off, len) in [(0usize, (1usize << 24) + 1), (3, N - 3), (4097, 1 << 24), (0, N + 7)] {
+        let fit = len.min(N - off);
+        let data = pat(7, len);
+        for route in 0..8usize {
+            t += 1;
+            ctx.case(true);
+            set();
+            let name = ["write", "write_slice", "read", "read_slice", "read_volatile_from(&[u8])", "write_volatile_to(Vec)", "copy_from<u8>", "copy_to<u8>"][route];
+            let mut buf = vec![0x3cu8; len];
+            let mut bad: Option<String> = None;
+            let mut want_mem = base.clone();
+            match route {
+                0 => {
+                    let r = vs.write(&data, off);
+                    want_mem[off..off + fit].copy_from_slice(&data[..fit]);
+                    if r.as_ref().ok() != Some(&fit) {
+                        bad = Some(format!("returned {:?}, expected Ok({})", r, fit));
+                    }
+                }
+                1 => {
+                    let r = vs.write_slice(&data, off);
+                    if fit == len {
+                        want_mem[off..off + fit].copy_from_slice(&data[..fit]);
+                    }
+                    if r.is_ok() != (fit == len) {
+                        bad = Some(format!("returned {:?}", r));
+                    } else if fit != len {
+                        want_mem = get(); // how much of a refused slice write lands is not fixed
+                    }
+                }
+                2 => {
+                    let r = vs.read(&mut buf, off);
+                    if r.as_ref().ok() != Some(&fit) || buf[..fit] != base[off..off + fit] || buf[fit..].iter().any(|x| *x != 0x3c) {
+                        bad = Some(format!("returned {:?} (expected Ok({})), or the buffer does not hold the container's bytes", r, fit));
+                    }
+                }
+                3 => {
+                    let r = vs.read_slice(&mut buf, off);
+                    if r.is_ok() != (fit == len) || (fit == len && buf[..] != base[off..off + len]) {
+                        bad = Some(format!("returned {:?}, or the buffer does not hold the container's bytes", r));
+                    }
+                }
+                4 => {
+                    let mut src: &[u8] = &data;
+                    let r = vs.read_volatile_from(off, &mut src, len);
+                    want_mem[off..off + fit].copy_from_slice(&data[..fit]);
+                    if r.as_ref().ok() != Some(&fit) || src.len() != len - fit {
+                        bad = Some(format!("returned {:?} (expected Ok({})), {} bytes left in the source", r, fit, src.len()));
+                    }
+                }
+                5 => {
+                    let mut sink: Vec<u8> = Vec::new();
+                    let r = vs.write_volatile_to(off, &mut sink, len);
+                    if r.as_ref().ok() != Some(&fit) || sink[..] != base[off..off + fit] {
+                        bad = Some(format!("returned {:?} (expected Ok({})), the sink holds {} bytes", r, fit, sink.len()));
+                    }
+                }
+                6 => {
+                    vs.subslice(off, fit).unwrap().copy_from(&data[..]);
+                    want_mem[off..off + fit].copy_from_slice(&data[..fit]);
+                }
+                _ => {
+                    let n = vs.subslice(off, fit).unwrap().copy_to(&mut buf[..]);
+                    if n != fit || buf[..fit] != base[off..off + fit] || buf[fit..].iter().any(|x| *x != 0x3c) {
+                        bad = Some(format!("returned {} (expected {}), or the buffer does not hold the container's bytes", n, fit));
+                    }
+                }
+            }
+            if bad.is_none() {
+                let after = get();
+                if after != want_mem {
+                    let i = (0..N).find(|i| after[*i] != want_mem[*i]).unwrap();
+                    bad = Some(format!("container byte {:#x} is {:#04x}, expected {:#04x}", i, after[i], want_mem[i]));
+                }
+            }
+            if let Some(d) = bad {
+                let key = format!("C04/MmapRegion(16 MiB + 8197)/{}", name);
+                let rp = if ctx.has_failed(&key) { Value::Null } else { json!({"route": name, "offset": off, "len": len}) };
+                ctx.fail(&key, &format!("{} bytes at offset {}: {}", len, off, d), rp);
+            }
+        }
+    }
+    ctx.add_transitions(t);
+    ctx.add_traces(t);
 }
 
 #[cfg(not(feature = "xen"))]
